@@ -67,7 +67,7 @@ func TestDefaultDialer(t *testing.T) {
 	cert := loopbackCert()
 	n := 0
 	for _, plan := range plans {
-		if plan.Pt == "write" || plan.Kind == "junk" || plan.Kind == "srvreq" {
+		if plan.Pt == "write" || plan.Kind == "junk" || plan.Kind == "srvreq" || plan.Kind == "with-reply" {
 			continue // failures of the client's own socket need the injecting dialer (TestFaults)
 		}
 		n++
